@@ -310,7 +310,7 @@ PROPS = {
                              "parse_errors": 100000, "parsed_ok": 3000}},
         "on_death": "sanitizer",
         "assumptions": COMMON_ASSUMPTIONS + ["'never fails to terminate' is restated as bounded progress (10 s + 1 ms per input byte); 'bounded stack' as no overflow on a 2 MiB thread (optimised) / 8 MiB (unoptimised)"],
-        "technique": "runtime monitoring: total-function oracle (no panic / process survives / time budget / error well-formedness via hooked span and Display) over token soup, mutated filters, exhaustive truncations and isolated pathological inputs",
+        "technique": "runtime monitoring: total-function oracle (no panic / process survives / time budget / error well-formedness via hooked span and Display) over token soup, mutated filters, exhaustive truncations and isolated pathological inputs; thorough adds a coverage-guided (libFuzzer, ASan) workload decided by the same oracle",
     },
     "C14": {
         "rule": ("round-trip: random contexts over the four rich schemes and four degenerate ones (lists but no fields; "
